@@ -36,6 +36,8 @@ CallsA ==     \* the content mutators of the statement
                            [op |-> "Reverse"], [op |-> "Reset"]}
     [] FAMILY = "poppush" -> {[op |-> "Push", xs |-> <<"a", "b">>], [op |-> "Pop"], [op |-> "Remove", i |-> 1], [op |-> "Insert", x |-> "b", i |-> 1]}
     [] FAMILY = "mini3" -> {[op |-> "Pop"], [op |-> "Push", xs |-> <<"a">>], [op |-> "Remove", i |-> 0], [op |-> "Insert", x |-> "b", i |-> 0]}
+    \* "policy": a push policy (approving a and b) is installed; Push consults it INSIDE its critical section
+    [] FAMILY = "policy" -> {[op |-> "Push", xs |-> <<"a">>], [op |-> "Push", xs |-> <<"a", "b">>], [op |-> "Pop"], [op |-> "Insert", x |-> "b", i |-> 0]}
     [] OTHER -> {[op |-> "Pop"], [op |-> "Push", xs |-> <<"a">>]}
 
 InitElems(n) == CASE n = 0 -> <<>> [] n = 1 -> <<"p">> [] n = 2 -> <<"p", "q">> [] OTHER -> <<"p", "q", "r">>
@@ -45,7 +47,9 @@ VARIABLES st, init, prog, pc, ip, rets, sched
 vars == <<st, init, prog, pc, ip, rets, sched>>
 
 Init == /\ \E n \in Lens, c \in Caps, f \in BOOLEAN :
-             st = [NewState("AND", c) EXCEPT !.mtx = TRUE, !.e = InitElems(n), !.fifo = f] /\ (c = 0 \/ n <= c)
+             st = [NewState("AND", c) EXCEPT !.mtx = TRUE, !.e = InitElems(n), !.fifo = f,
+                                             !.haspol = (FAMILY = "policy"), !.acc = IF FAMILY = "policy" THEN {"a", "b"} ELSE {}]
+             /\ (c = 0 \/ n <= c)
         /\ init = st
         /\ prog \in [Gs -> [1..OpsPer -> CallsA]]
         /\ pc = [g \in Gs |-> "start"] /\ ip = [g \in Gs |-> 1]
